@@ -40,6 +40,7 @@ type Engine struct {
 	lemmaPkg  map[*Lemma]string
 	rawSMT    []string
 
+	funcIDs   map[string]int
 	typeIDs   map[string]int // type string -> interface tag
 	typeByID  []types.Type
 	warnings  []string
@@ -61,6 +62,7 @@ func NewEngine(repo string) *Engine {
 		globalInvs: map[string][]*Lemma{},
 		lemmaPkg:  map[*Lemma]string{},
 		typeIDs:   map[string]int{},
+		funcIDs:   map[string]int{},
 		typeByID:  []types.Type{nil},
 	}
 }
@@ -334,6 +336,16 @@ func (e *Engine) typeID(t types.Type) int {
 	id := len(e.typeByID)
 	e.typeIDs[k] = id
 	e.typeByID = append(e.typeByID, t)
+	return id
+}
+
+// funcID numbers functions by canonical name (identity of function values).
+func (e *Engine) funcID(name string) int {
+	if id, ok := e.funcIDs[name]; ok {
+		return id
+	}
+	id := len(e.funcIDs) + 1
+	e.funcIDs[name] = id
 	return id
 }
 
